@@ -11,4 +11,5 @@ func extractMore(repo string, o *leanOut) {
 	o.nat("maxReadChunk", mc.int("maxReadChunk"))
 	extractEvents(repo, o)
 	extractGrammar(repo, o)
+	extractPools(repo, o)
 }
